@@ -77,7 +77,12 @@ func significantByte(b []byte) bool {
 
 func c06RenderBytes(src []byte, ctx pongo2.Context) (string, error) {
 	set := pongo2.NewSet("c06", &memLoader{files: map[string]string{}})
-	tpl, err := set.FromBytes(src)
+	// the caller's buffer belongs to the caller: it is reused (overwritten) after compilation
+	scratch := append([]byte(nil), src...)
+	tpl, err := set.FromBytes(scratch)
+	for i := range scratch {
+		scratch[i] = '#'
+	}
 	if err != nil {
 		return "", fmt.Errorf("compile: %w", err)
 	}
